@@ -67,10 +67,11 @@ def run(ctx):
                 "(type, title, address) cases with a title.")
     ctx.assumptions += [
         "premise: the title contains no '@' and is not empty (an empty title part is the documented text form of 'no title'); "
-        "an address without a title contains no '@'",
+        "the network address string itself may contain '@' (AeAddr<String>/FullAeAddr<String>): untitled it is printed "
+        "with a leading '@'",
         "network addresses are given by their canonical text (the value is obtained by parsing it; the driver checks that the "
         "type prints the same text); IPv6 flow info has no text form and is 0",
-        "titles are printable ASCII (AE titles); host:port strings use letters, digits, '-', '_' and '.'",
+        "titles are printable ASCII (AE titles); host:port strings use letters, digits, '-', '_', '.' and '@'",
     ]
     vlib.build_harness(["drv_aeaddr"])
 
@@ -83,6 +84,11 @@ def run(ctx):
     if gr.distinct < 1000:
         raise vlib.ToolError("vacuity: instance space has only %d addresses" % gr.distinct)
     ctx.extra_cov["instances_model_checked"] = gr.distinct
+    with open(cases) as f:
+        at_untitled = sum(1 for ln in f if '"some":false' in ln.split('"addr"')[0] and "@" in json.loads(ln)["addr"])
+    if at_untitled < 4:
+        raise vlib.ToolError("vacuity: only %d untitled addresses containing '@' were generated" % at_untitled)
+    ctx.extra_cov["untitled_addresses_containing_at"] = at_untitled
     rep = vlib.run_driver("drv_aeaddr", ["replay", "--cases", cases, "--out", ctx.path("replay")], env=ctx.env())
     if rep["harness_error_count"]:
         raise vlib.ToolError("driver could not build %d addresses: %s" % (rep["harness_error_count"], rep["harness_errors"]))
